@@ -59,6 +59,9 @@ class Checker:
         self.only_key: Optional[str] = None     # --replay: evaluate everything, report only this key
 
     # -- recording
+    def wants(self, rule) -> bool:
+        return True
+
     def clause(self, rule: str, text: str):
         self.clauses[rule] = text
 
@@ -114,6 +117,14 @@ class RuleView:
         self.prop_id = ck.prop_id
         self.tier = ck.tier
         self.extra = {}              # scratch: notes of the borrowed rule are not part of the borrowing property's evidence
+
+    def wants(self, rule) -> bool:
+        """does anything recorded under `rule` reach the property being checked? (lets a borrowed run() skip cross-listings of its
+        own that the borrower does not list - their analysis errors are not the borrower's business)"""
+        if rule not in self._map:
+            return False
+        parent = self._ck
+        return parent.wants(self._map[rule]) if hasattr(parent, "wants") else True
 
     def clause(self, rule, text):
         if rule in self._map:
